@@ -20,7 +20,7 @@ func init() {
 			"Together with the table update rule (newer sequence from the same origin always replaces: C10.R1) this is what lets an origin's next announcement refresh every receiver. Delivery itself (liveness) is not decided.",
 		Run: runC14,
 		SelfTests: []SelfTest{
-			{Name: "node-info replay numbered with the local counter", ExpectRule: "C14.R1", ExpectKey: "SendNodeInfoToNewPeer", Edits: []Edit{
+			{Name: "node-info replay numbered with the local counter", ExpectRule: "C14.R1", ExpectKey: "full-table replay NodeInfoAdvertise", Edits: []Edit{
 				{File: "internal/flood/flood.go", Old: "\t\t\tSequence:    entry.Sequence,\n", New: "\t\t\tSequence:    f.nodeInfoSeq,\n"},
 			}},
 			{Name: "forwarded advertisement renumbered with the local counter", ExpectRule: "C14.R1", ExpectKey: "floodAdvertisementEncrypted", Edits: []Edit{
@@ -152,6 +152,7 @@ func runC14(p *kit.Program, r *kit.Report) {
 	// ---------------- R1
 	n := 0
 	nLocal := 0
+	replayOrd := map[string]int{}
 	for _, l := range cx.lits {
 		seq, hasSeq := l.vals["Sequence"]
 		if c11HasField(l.typ, "Sequence") == nil || c11HasField(l.typ, "OriginAgent") == nil {
@@ -161,6 +162,20 @@ func runC14(p *kit.Program, r *kit.Report) {
 		key := l.key() + " Sequence"
 		pos := p.Pos(l.alloc.Pos())
 		oa := l.vals["OriginAgent"]
+		// a replay (built outside the forwarding chain, in another agent's name) is keyed by its
+		// role, so that the construct keeps its key when the literal moves into a helper
+		if oa != nil && !cx.reach[l.fn] && !c12FromHandler(cx, l) {
+			own := true
+			for _, a := range c11Resolve(p, oa) {
+				if !c11LoadsField(a, cx.localID) {
+					own = false
+				}
+			}
+			if !own {
+				replayOrd[l.typ.Obj().Name()]++
+				key = fmt.Sprintf("full-table replay %s literal #%d Sequence", l.typ.Obj().Name(), replayOrd[l.typ.Obj().Name()])
+			}
+		}
 		if !hasSeq || oa == nil {
 			r.Violation("C14.R1", key, pos, "the announcement is built without an origin or a sequence number: receivers file it under (zero id, 0) and reject it as a duplicate or as older")
 			continue
@@ -262,7 +277,11 @@ func runC14(p *kit.Program, r *kit.Report) {
 			pos := g4SkipPos(p, sk)
 			var deps []string
 			for _, c := range g4SkipConds(cx, h, d, sk, true) {
-				deps = append(deps, g4MutableStateDeps(cx, mutable, c)...)
+				var ignore *types.Var
+				if c.wraps {
+					ignore = d.field // the admission helper legitimately consults the handler's own seen cache
+				}
+				deps = append(deps, g4MutableStateDeps(cx, mutable, c.v, ignore)...)
 			}
 			deps = c12Uniq(deps)
 			r.Decide(len(deps) == 0, "C14.R3", key, pos,
